@@ -253,13 +253,67 @@ def mod_enclosing(mod, node):
     return mod.enclosing_func(node)
 
 
+def d_convergence_gate(ctx, fits):
+    """the sensitivities are those of the implicit-function theorem AT A STATIONARY POINT: both fitters must refuse to go on
+    when the minimiser reports that it stopped without converging.  scipy.odr: info 1, 2, 3 = converged (sum of squares /
+    parameters / both), 4 = iteration limit reached, >= 5 = questionable or fatal.  scipy.optimize / iminuit: .success."""
+    rule = 'C08-D8'
+    f = fits.func('total_least_squares')
+    raises = [s_ for s_ in statements(f) if isinstance(s_, ast.Raise)]
+    gate = []
+    for r in raises:
+        gs = guards_of(fits, r, stop=f)
+        if len(gs) == 1 and gs[0][1] and any(isinstance(x, ast.Attribute) and x.attr == 'info' for x in ast.walk(gs[0][0])):
+            gate.append((r, gs[0][0]))
+    key = 'fits.py:total_least_squares#odr-info-gate'
+    if len(gate) != 1:
+        ctx.check(rule, key, False, '', 'no top-level raise guarded by a test of the ODR stop code (.info) found: a fit abandoned at the iteration limit is returned as a result', fits.loc(f))
+    else:
+        r, t = gate[0]
+        info_nodes = [x for x in ast.walk(t) if isinstance(x, ast.Attribute) and x.attr == 'info']
+        wrong = []
+        for code in range(1, 9):
+            expr = ast.Expression(body=ast.fix_missing_locations(_subst(t, info_nodes, code)))
+            try:
+                fires = bool(eval(compile(expr, '<guard>', 'eval'), {'__builtins__': {}}, {}))
+            except Exception as e:
+                raise Unrecognised('cannot evaluate %s: %s' % (unparse(t), e))
+            if fires != (code >= 4):
+                wrong.append(code)
+        ctx.check(rule, key, not wrong, 'stop codes 1..3 (converged) pass, 4 (iteration limit) and above raise: `%s`' % unparse(t),
+                  'guard `%s` treats ODR stop code(s) %s wrongly (1-3 = converged, 4 = iteration limit reached, >=5 = error): the derivatives would be taken at a point that is not a minimum' % (unparse(t), wrong), fits.loc(r))
+        # the gate precedes the derivative computation
+        hess = [s_ for s_ in statements(f) if isinstance(s_, ast.Assign) and any(isinstance(c, ast.Call) and call_name(c) in ('hessian', 'jacobian') for c in ast.walk(s_.value))]
+        ctx.check(rule, key + '-before-derivatives', bool(hess) and all(r.lineno < h.lineno for h in hess), 'the gate is passed before any Hessian is evaluated', 'a Hessian is evaluated before the convergence gate', fits.loc(r))
+    g = fits.func('least_squares')
+    gate = []
+    for r in [s_ for s_ in statements(g) if isinstance(s_, ast.Raise)]:
+        gs = guards_of(fits, r, stop=g)
+        if len(gs) == 1 and unparse(gs[0][0]) in ('not fit_result.success', 'fit_result.success is False', 'fit_result.success == False') and gs[0][1]:
+            gate.append(r)
+    ctx.check(rule, 'fits.py:least_squares#success-gate', len(gate) == 1, 'a minimiser result without .success raises', 'no raise guarded by `not fit_result.success`', fits.loc(g))
+
+
+def _subst(test, nodes, value):
+    import copy
+    t = copy.deepcopy(test)
+    ids = {unparse(n) for n in nodes}
+
+    class R(ast.NodeTransformer):
+        def visit_Attribute(self, n):
+            if unparse(n) in ids:
+                return ast.Constant(value=value)
+            return self.generic_visit(n)
+    return R().visit(t)
+
+
 def run(ctx):
     ctx.rule('C08-D1', 'layout agreement of the two implicit-function steps')
     ctx.rule('C08-D2', 'sign and Hessian')
     ctx.rule('C08-D3', 'chi-square definitions agree (x-residual term present)')
     ctx.rule('C08-D4', 'value carrier, dof, p-value')
     ctx.rule('C08-D5', 'fit_lin dispatch')
-    ctx.not_decided += ['stationarity of the returned point', 'first-order re-fit prediction', 'ODR convergence']
+    ctx.not_decided += ['stationarity of the returned point', 'first-order re-fit prediction']
     fits = ctx.repo.mod('fits')
     ctx.guarded('C08-D1', 'fits.py:total_least_squares@layout', d_layout, ctx, fits)
     ctx.guarded('C08-D5', 'fits.py:fit_lin', d_fit_lin, ctx, fits)
@@ -268,15 +322,21 @@ def run(ctx):
     ctx.rule('C08-D6', 'least_squares: implicit-function layout, sign and residual definitions (shared analysis with C07)')
     ctx.guarded('C08-D6', 'fits.py:least_squares@layout', C07.d1_layout, ctx, fits, 'C08-D6', 'C08-D6', 'C08-D6')
     ctx.guarded('C08-D6', 'fits.py:least_squares@chisq', C07.d6_chisq, ctx, fits, 'C08-D6')
-    from .. import unusedparams
-    ctx.rule('C08-D7', 'every accepted option is read (no silently ignored parameter)')
+    ctx.rule('C08-D8', 'convergence gate: no result from a minimiser that did not converge')
+    ctx.guarded('C08-D8', 'fits.py@convergence', d_convergence_gate, ctx, fits)
+    from .. import unusedparams, leakedloop
+    ctx.rule('C08-D7', 'every accepted option is read (no silently ignored parameter); no loop variable read after its loop')
     for mn_ in ('fits',):
         ctx.guarded('C08-D7', mn_ + '@parameters', unusedparams.check, ctx, 'C08-D7', ctx.repo.mod(mn_))
+        ctx.guarded('C08-D7', mn_ + '@loop-variables', leakedloop.check, ctx, 'C08-D7', ctx.repo.mod(mn_))
 
     ctx.floor('C08 obligations', len(ctx.obs), 28)
 
 
 SELFTEST = [
+    ('odr-iteration-limit-accepted', 'pyerrors/fits.py', "    if out.info > 3:", "    if out.info >= 5:", 'C08-D8'),
+    ('benign-odr-gate-ge', 'pyerrors/fits.py', "    if out.info > 3:", "    if out.info >= 4:", 'BENIGN'),
+    ('success-gate-removed', 'pyerrors/fits.py', "    if not fit_result.success:\n        raise Exception('The minimization procedure did not converge.')\n", "", 'C08-D8'),
     ('x-residual-dropped', 'pyerrors/fits.py', "        chisq = anp.sum(((y_f - model) / dy_f) ** 2) + anp.sum(((x_f - p[n_parms:].reshape(x_shape)) / dx_f) ** 2)", "        chisq = anp.sum(((y_f - model) / dy_f) ** 2)", 'C08-D3'),
     ('compact-x-uses-xf', 'pyerrors/fits.py', "anp.sum(((d[n_parms + m:].reshape(x_shape) - d[n_parms:n_parms + m].reshape(x_shape)) / dx_f) ** 2)", "anp.sum(((x_f - d[n_parms:n_parms + m].reshape(x_shape)) / dx_f) ** 2)", 'C08-D3'),
     ('compact-y-weights', 'pyerrors/fits.py', "chisq = anp.sum(((d[n_parms + m:] - model) / dy_f) ** 2)", "chisq = anp.sum(((d[n_parms + m:] - model) / dx_f) ** 2)", 'C08-D3'),
